@@ -10,7 +10,7 @@ out = sys.argv[1] if len(sys.argv) > 1 else "/root/scratch/cov"
 os.makedirs(out, exist_ok=True)
 pids = ["C%02d" % i for i in range(1, 21)]
 def run(pid):
-    env = dict(os.environ, VERIF_COVERAGE="1", VERIF_NO_ESCALATE="1")
+    env = dict(os.environ, VERIF_COVERAGE="1", VERIF_NO_ESCALATE="1", VERIF_COVERAGE_ALL="1")
     r = subprocess.run(["./check", pid, "--tier", os.environ.get("COV_TIER", "quick")], cwd=V, env=env, capture_output=True, text=True)
     shutil.copy(os.path.join(V, "evidence", pid + ".json"), os.path.join(out, pid + ".json"))
     return pid, r.returncode
